@@ -42,18 +42,20 @@ theorem C06_units :
 /-! ## once -/
 
 /-- **`once(time ± offset)` fires every day.**  For every time of day, offset, current time and start-up time the answer is
-the earliest daily occurrence strictly after now (the day-offset re-parse always lands on it) – unless today's
-occurrence coincides with the start-up time to the microsecond (finding C06-F3). -/
-theorem C06_once_daily (F : TFlags) (P : Params) (time : TimeSpec) (x off now st : Int) (h : Spec.fixedTod time = some x)
-    (hd : dayInRange (dayOf now)) (hst : midnight (dayOf now) + x + off ≠ st) :
+the earliest daily occurrence strictly after now (the day-offset re-parse always lands on it) – the only exception being the
+start-up rule shared with every other form: asked AT start-up, an occurrence equal to the start-up time is announced itself
+(full since the fix of C06-F3: the re-parse is suppressed only when `now == this_t == startup_time`, no longer whenever the first
+parse merely equals the start-up time; `C06_regress_startup_coincidence`). -/
+theorem C06_once_daily (F : TFlags) (hF : F.startupByValue = false) (P : Params) (time : TimeSpec) (x off now st : Int)
+    (h : Spec.fixedTod time = some x) (hd : dayInRange (dayOf now)) (hns : ¬ (now = midnight (dayOf now) + x + off ∧ now = st)) :
     ∃ t, timerNext1 F P (.once (.at .none time off)) now st = some (some t) ∧ IsNext (Spec.daily (x + off)) now (some t) := by
-  obtain ⟨t, h1, h2⟩ := onceCand_daily P time x off now st h hd hst
-  exact ⟨t, by simp [timerNext1, specStep, h1, NT.take], h2⟩
+  obtain ⟨t, h1, h2⟩ := onceCand_daily P time x off now st h hd hns
+  exact ⟨t, by simp [timerNext1, specStep, hF, h1, NT.take], h2⟩
 
 /-- **`once(now ± offset)`** denotes the single instant start-up ± offset. -/
 theorem C06_once_now (F : TFlags) (P : Params) (off now st : Int) (hns : ¬ (now = st + off ∧ now = st)) :
     ∃ r, timerNext1 F P (.once (.now off)) now st = some r ∧ IsNext (Spec.single (st + off)) now r := by
-  have hc := onceCand_const P (.now off) now st (st + off) true (fun k => parse_now P.base off k now st)
+  have hc := onceCand_const F.startupByValue P (.now off) now st (st + off) true (fun k => parse_now P.base off k now st)
   have hb : (now == st + off && now == st) = false := by
     cases h1 : now == st + off <;> cases h2 : now == st <;> simp_all
   refine ⟨if now < st + off then some (st + off) else none, ?_, isNext_single _ _⟩
@@ -63,7 +65,7 @@ theorem C06_once_now (F : TFlags) (P : Params) (off now st : Int) (hns : ¬ (now
 
 /-- at start-up `once(now)` answers the start-up instant itself -/
 theorem C06_once_now_startup (F : TFlags) (P : Params) (st : Int) : timerNext1 F P (.once (.now 0)) st st = some (some st) := by
-  have hc := onceCand_const P (.now 0) st st (st + 0) true (fun k => parse_now P.base 0 k st st)
+  have hc := onceCand_const F.startupByValue P (.now 0) st st (st + 0) true (fun k => parse_now P.base 0 k st st)
   simp [timerNext1, specStep, hc, NT.take]
 
 /-- **`once(Y/M/D time ± offset)`** denotes that single instant. -/
@@ -71,7 +73,7 @@ theorem C06_once_full (F : TFlags) (P : Params) (time : TimeSpec) (x off y m d n
     (hv : validDate y m d = true) (hns : ¬ (now = midnight (daysFromCivil y m d) + x + off ∧ now = st)) :
     ∃ r, timerNext1 F P (.once (.at (.full y m d) time off)) now st = some r ∧
       IsNext (Spec.single (midnight (daysFromCivil y m d) + x + off)) now r := by
-  have hc := onceCand_const P (.at (.full y m d) time off) now st _ true
+  have hc := onceCand_const F.startupByValue P (.at (.full y m d) time off) now st _ true
     (fun k => parse_full P.base time x off k y m d now st h hv)
   have hb : (now == midnight (daysFromCivil y m d) + x + off && now == st) = false := by
     cases h1 : now == midnight (daysFromCivil y m d) + x + off <;> cases h2 : now == st <;> simp_all
@@ -88,7 +90,7 @@ theorem C06_once_weekly_partial (F : TFlags) (P : Params) (time : TimeSpec) (x o
     (hlt : now < midnight (dayOf now + dowOffset j (weekday (dayOf now))) + (x + off)) :
     ∃ t, timerNext1 F P (.once (.at (.dow j) time off)) now st = some (some t) ∧
       IsNext (Spec.weekly j (x + off)) now (some t) := by
-  have hc := onceCand_const P (.at (.dow j) time off) now st _ true
+  have hc := onceCand_const F.startupByValue P (.at (.dow j) time off) now st _ true
     (fun k => parse_dow P.base time x off k j now st h hd)
   have e : midnight (dayOf now + dowOffset j (weekday (dayOf now))) + x + off
       = midnight (dayOf now + dowOffset j (weekday (dayOf now))) + (x + off) := by omega
@@ -104,7 +106,7 @@ theorem C06_once_yearly_partial (F : TFlags) (P : Params) (time : TimeSpec) (x o
     (hlt : now < midnight (daysFromCivil (civilFromDays (dayOf now)).y m d) + (x + off)) :
     ∃ t, timerNext1 F P (.once (.at (.monthDay m d) time off)) now st = some (some t) ∧
       IsNext (Spec.yearly m d (x + off)) now (some t) := by
-  have hc := onceCand_const P (.at (.monthDay m d) time off) now st _ true
+  have hc := onceCand_const F.startupByValue P (.at (.monthDay m d) time off) now st _ true
     (fun k => parse_monthDay P.base time x off k m d now st h hv)
   have e : midnight (daysFromCivil (civilFromDays (dayOf now)).y m d) + x + off
       = midnight (daysFromCivil (civilFromDays (dayOf now)).y m d) + (x + off) := by omega
@@ -162,40 +164,57 @@ theorem C06_regress_cron_impossible_day :
 iterator raises leave the accumulated answer as it is – so by `C06_min` the list's answer is the minimum over the OTHER entries. -/
 theorem C06_no_instant_skipped (P : Params) (now st : Int) (s : NT) :
     (∀ d : DTSpec, parseDT P.base d 0 now st = none → specStep TFlags.current P now st s (.once d) = some s) ∧
-    (∀ id : Nat, cronLoop P id now cronFuel now = none → specStep TFlags.current P now st s (.cron id) = some s) := by
-  refine ⟨fun d h => ?_, fun id h => ?_⟩
+    (∀ id : Nat, cronLoop P id now cronFuel now = none → specStep TFlags.current P now st s (.cron id) = some s) ∧
+    (∀ (a : DTSpec) (per : Int) (stop : Option DTSpec), parseDT P.base a 0 now st = none →
+        specStep TFlags.current P now st s (.period a per stop) = some s) ∧
+    (∀ (a b : DTSpec) (per : Int), parseDT P.base b 0 now st = none →
+        specStep TFlags.current P now st s (.period a per (some b)) = some s) := by
+  refine ⟨fun d h => ?_, fun id h => ?_, fun a per stop h => ?_, fun a b per h => ?_⟩
   · simp [specStep, onceCand, h, TFlags.current]
   · simp [specStep, h, TFlags.current]
+  · simp [specStep, periodStep, h, TFlags.current]
+  · simp only [specStep, periodStep]
+    cases parseDT P.base a 0 now st with
+    | none => simp [TFlags.current]
+    | some x => by_cases hp : per ≤ 0 <;> simp [hp, h, TFlags.current]
 
-/-- finding C06-F11 (what b7a2f54 left): the start (and end) of `period(...)` is parsed outside any `try`: `period(2/29 8:00, 1 h)`
-asked on 31 December 2023 still raises, alone and in a list whose other entry denotes tomorrow's noon. -/
-theorem C06_cex_period_feb29_common_year :
+/-- regression for C06-F11 (fixed; what b7a2f54 had left): the start and end of `period(...)` used to be parsed outside any `try`:
+`period(2/29 8:00, 1 h)` / `period(noon, 1 h, 2/29 noon)` asked on 31 December 2023 raised and took the list with them; the code as
+it is skips the entry and announces the other entry's instant (tomorrow's noon). -/
+theorem C06_regress_period_feb29_common_year :
     let P : Params := ⟨C07.Params.trivial, fun a p => a / p, fun _ t => t + 1, fun _ => 0⟩
     let now : Int := 1704063540000000
-    timerNext TFlags.current P [.once (.at .none .noon 0), .period (.at (.monthDay 2 29) (.hms 8 0 0) 0) usHour none] now 0 = none ∧
-    timerNext TFlags.current P [.once (.at .none .noon 0), .period (.at .none .noon 0) usHour (some (.at (.monthDay 2 29) .noon 0))] now 0 = none ∧
-    timerNext TFlags.current P [.once (.at .none .noon 0)] now 0 = some ⟨some 1704110400000000, some 1704110400000000⟩ := by
-  refine ⟨by decide, by decide, by decide⟩
+    timerNext TFlags.preFixPeriod P [.once (.at .none .noon 0), .period (.at (.monthDay 2 29) (.hms 8 0 0) 0) usHour none] now 0 = none ∧
+    timerNext TFlags.preFixPeriod P [.once (.at .none .noon 0), .period (.at .none .noon 0) usHour (some (.at (.monthDay 2 29) .noon 0))] now 0 = none ∧
+    timerNext TFlags.current P [.once (.at .none .noon 0), .period (.at (.monthDay 2 29) (.hms 8 0 0) 0) usHour none] now 0
+      = some ⟨some 1704110400000000, some 1704110400000000⟩ ∧
+    timerNext TFlags.current P [.once (.at .none .noon 0), .period (.at .none .noon 0) usHour (some (.at (.monthDay 2 29) .noon 0))] now 0
+      = some ⟨some 1704110400000000, some 1704110400000000⟩ := by
+  refine ⟨by decide, by decide, by decide, by decide⟩
 
-/-- finding C06-F3: `once(10:00)` whose trigger was started at exactly 10:00:00.000000 – asked five seconds later it answers
-`none` (the `this_t != startup_time` test suppresses the day offset), although tomorrow 10:00 is denoted. -/
-theorem C06_cex_startup_coincidence :
+/-- regression for C06-F3 (fixed): `once(10:00)` whose trigger was started at exactly 10:00:00.000000 – asked five seconds later the
+pre-fix code answered `none` (the `this_t != startup_time` test suppressed the day offset) although tomorrow 10:00 is denoted; the
+code as it is answers tomorrow 10:00, and at start-up itself still the start-up instant. -/
+theorem C06_regress_startup_coincidence :
     let P : Params := ⟨C07.Params.trivial, fun a p => a / p, fun _ t => t + 1, fun _ => 0⟩
     let st : Int := 1709287200000000
-    timerNext1 TFlags.current P (.once (.at .none (.hms 10 0 0) 0)) (st + 5000000) st = some none ∧
+    timerNext1 TFlags.preFixPeriod P (.once (.at .none (.hms 10 0 0) 0)) (st + 5000000) st = some none ∧
+    timerNext1 TFlags.current P (.once (.at .none (.hms 10 0 0) 0)) (st + 5000000) st = some (some (st + usDay)) ∧
+    timerNext1 TFlags.current P (.once (.at .none (.hms 10 0 0) 0)) st st = some (some st) ∧
     Spec.daily (10 * usHour) (st + usDay) := by
-  refine ⟨by decide, ⟨dayOf 1709287200000000 + 1, by decide⟩⟩
+  refine ⟨by decide, by decide, by decide, ⟨dayOf 1709287200000000 + 1, by decide⟩⟩
 
-/-- finding C06-F3 through an offset that crosses midnight: `once(midnight - 12 hour)` started on 2024-10-07 at 12:00:00.000000 –
+/-- regression for C06-F3 (fixed) through an offset that crosses midnight (pre-fix answer `none`, now today's noon): `once(midnight - 12 hour)` started on 2024-10-07 at 12:00:00.000000 –
 the next morning (06:00) the first parse, today's midnight − 12 h, IS the start-up time, the day-offset re-parse is suppressed and
 the answer is `none`, although today's noon is denoted and still ahead; asked at start-up the same instant was announced. -/
-theorem C06_cex_startup_coincidence_offset :
+theorem C06_regress_startup_coincidence_offset :
     let P : Params := ⟨C07.Params.trivial, fun a p => a / p, fun _ t => t + 1, fun _ => 0⟩
     let st : Int := 1728302400000000
-    timerNext1 TFlags.current P (.once (.at .none .midnight (-12 * usHour))) (st + 18 * usHour) st = some none ∧
+    timerNext1 TFlags.preFixPeriod P (.once (.at .none .midnight (-12 * usHour))) (st + 18 * usHour) st = some none ∧
+    timerNext1 TFlags.current P (.once (.at .none .midnight (-12 * usHour))) (st + 18 * usHour) st = some (some (st + usDay)) ∧
     timerNext1 TFlags.current P (.once (.at .none .midnight (-12 * usHour))) st st = some (some (st + usDay)) ∧
     Spec.daily (-12 * usHour) (st + usDay) ∧ st + 18 * usHour < st + usDay := by
-  refine ⟨by decide, by decide, ⟨dayOf 1728302400000000 + 2, by decide⟩, by decide⟩
+  refine ⟨by decide, by decide, by decide, ⟨dayOf 1728302400000000 + 2, by decide⟩, by decide⟩
 
 /-! ## period -/
 
@@ -429,21 +448,35 @@ theorem C06_cex_once_spring_forward :
     wallAt zSpring (waitFire WFlags.new zSpring next next 4 r1) = next + 3600000000 := by
   decide
 
-/-- finding C06-F8 (new subsystem): `period(2024/6/3 12:00:01, 5s)` started at 12:00:00.25 on a wall clock that runs 1 ppm
+/-- regression for C06-F8 (new subsystem, fixed): `period(2024/6/3 12:00:01, 5s)` started at 12:00:00.25 on a wall clock that runs 1 ppm
 slower than the clock asyncio sleeps on.  The 0.75 s sleep ends with the wall clock at 12:00:00.999999; `timeout <= 1e-6` lets
 the function run, the next computation starts from a `now` that is still before 12:00:01 and announces 12:00:01 again: the same
-`trigger_time` is dispatched twice.  The legacy loop (`actual_now < time_next`) sleeps the last microsecond and goes on to
-12:00:06. -/
-theorem C06_cex_new_early_by_one_us_twice :
+`trigger_time` was dispatched twice (`WFlags.newPreFloor`).  The loop as it is computes from `max(dt_now(), 12:00:01)` and goes on to
+12:00:06, like the legacy loop (`actual_now < time_next`: sleeps the last microsecond). -/
+theorem C06_regress_new_early_by_one_us_twice :
     let P : Params := ⟨C07.Params.trivial, fun a p => a / p, fun _ t => t + 1, fun _ => 0⟩
     let st : Int := 1717416000250000
     let Z : Zone := ⟨fun x => -(((x - st) * 1 + 500000) / 1000000)⟩
     let spec : TSpec := .period (.at (.full 2024 6 3) (.hms 12 0 1000000) 0) 5000000 none
-    (dstLoop WFlags.new TFlags.current P [spec] st Z 2 st).map (fun x => (x.1, x.2.1)) =
+    (dstLoop WFlags.newPreFloor TFlags.current P [spec] st Z 2 st).map (fun x => (x.1, x.2.1)) =
       [(1717416001000000, 1717416000999999), (1717416001000000, 1717416001000000)] ∧
+    (dstLoop WFlags.new TFlags.current P [spec] st Z 2 st).map (fun x => x.1) = [1717416001000000, 1717416006000000] ∧
     (dstLoop WFlags.legacy TFlags.current P [spec] st Z 2 st).map (fun x => (x.1, x.2.1)) =
       [(1717416001000000, 1717416001000000), (1717416006000000, 1717416006000000)] := by
   decide
+
+/-- **The new loop never announces the instant it has just dispatched again** (since the fix of C06-F8): the next computation
+starts from `max(dt_now(), time_last)`, so – whatever the wall clock reads at the wake-up, for every zone, slack and list – the next
+`trigger_time` is strictly later than the last one, as soon as the wall clock has moved past the start-up time. -/
+theorem C06_new_floor_no_repeat (W : WFlags) (hW : W.nowFloor = true) (P : Params) (hC : CronForward P) (specs : List TSpec)
+    (st l w : Int) (hw : st < w) (r : NT) (t : Int)
+    (h : timerNext TFlags.current P specs (floorNow W (some l) w) st = some r) (ht : r.next = some t) : l < t := by
+  have hfl : l ≤ floorNow W (some l) w ∧ w ≤ floorNow W (some l) w := by
+    simp only [floorNow, hW, Bool.true_and]
+    split <;> rename_i hc <;> simp only [decide_eq_true_eq] at hc <;> omega
+  rcases C06_strict P hC specs _ st r t h ht with h1 | ⟨_, h2⟩
+  · omega
+  · omega
 
 /-! ## non-vacuity -/
 
